@@ -196,10 +196,14 @@ theorem step_mono {s s' : State} {l : Label} (h : step s l = some s') :
     ∧ (s.loopRunning = false → s'.loopRunning = false) ∧ (s.freeRun = true → s'.freeRun = true) := by
   cases l <;> simp only [step] at h
   case offer | freeRun => cases h; simp
-  case sigFire | endIncoming | acceptErr | ageTick | loopSig | loopErr | loopEnd | afterLoop
+  case sigFire | endIncoming | acceptErr | loopSig | loopErr | loopEnd | afterLoop
       | resolve =>
     split at h
     · cases h; simp
+    · cases h
+  case ageTick =>
+    split at h
+    · obtain ⟨_, _, _, rfl⟩ := updConn_some h; simp
     · cases h
   case issue | peerDrop | connSig | connAge | connBreak | connDropWatcher | hsDone | final =>
     obtain ⟨_, _, _, rfl⟩ := updConn_some h; simp
